@@ -110,9 +110,18 @@ def ws(case, res):
                          rng.choice([b"Sec-WebSocket-Key: ", b"sec-websocket-key:", b"SEC-WEBSOCKET-KEY:  "]) + key,
                          rng.choice([b"Sec-WebSocket-Version: 13", b"sec-websocket-version:13"]),
                          b"Sec-WebSocket-Protocol: " + rng.choice([b"jet", b"jet", b"chat, jet", b"jet, chat", b"a,b , jet ,c", b" jet"])]
-                for _ in range(rng.randrange(0, 4)):
-                    lines.append(rng.choice([b"Origin: http://x.example", b"X-Y: " + b"z" * rng.randrange(0, 120), b"Cookie: a=b; c=d", b"Pragma: no-cache"]))
+                # a handful of extra header lines - or so many (each one short) that the whole request is several times the size of
+                # the connection's read buffer, as browsers with cookies and long agent strings send them
+                nextra = rng.choice([0, 1, 2, 3, 3, 8, 14, 25])
+                for k_ in range(nextra):
+                    lines.append(rng.choice([b"Origin: http://x.example", b"X-Y%d: " % k_ + b"z" * rng.randrange(0, 120), b"Cookie: a=b; c=d; n%d=" % k_ + b"v" * rng.randrange(10, 90), b"Pragma: no-cache",
+                                             b"User-Agent: Mozilla/5.0 (X11; Linux x86_64) AppleWebKit/537.36 (KHTML, like Gecko) Chrome/90.0 Safari/537.36", b"Accept-Language: de-DE,de;q=0.9,en;q=0.8"]))
                 rng.shuffle(lines)
+                if nextra >= 8 and rng.random() < 0.6:
+                    # the key early, far in front of the end of the header block
+                    kl = [l for l in lines if l.lower().startswith(b"sec-websocket-key")][0]
+                    lines.remove(kl)
+                    lines.insert(rng.randrange(0, 3), kl)
                 target = rng.choice([b"/api/jet/", b"/api/jet/", b"/api/jet/x", b"/api/jet/?a=1",
                                      # absolute form (RFC 7230 5.3.2): the handler is selected by the path component
                                      b"http://127.0.0.1:11123/api/jet/", b"http://h/api/jet/?client=x"])
